@@ -66,9 +66,58 @@ TEXTS = {
     'astral': '\U0001f600 x\n',
     'nul': 'a\x00b\n',
 }
-TEXT_QUICK = ['empty', 'a', 'a-nl', 'crlf', 'cr', 'uni', 'nofinal', 'l200']
-TEXT_THOROUGH = TEXT_QUICK + ['blank2', 'spaces', 'ff', 'u2028', 'crlf-end',
-                              'mixed', 'astral', 'nul']
+# Every line boundary str.splitlines() knows, by name.
+SEPARATORS = [('lf', '\n'), ('cr', '\r'), ('crlf', '\r\n'), ('vt', '\x0b'),
+              ('ff', '\x0c'), ('fs', '\x1c'), ('gs', '\x1d'), ('rs', '\x1e'),
+              ('nel', '\x85'), ('ls', '\u2028'), ('ps', '\u2029')]
+SPLITLINES_ONLY = ('\x0b', '\x0c', '\x1c', '\x1d', '\x1e', '\x85', '\u2028',
+                   '\u2029')
+for _n, _s in SEPARATORS:
+    TEXTS['in-' + _n] = 'a' + _s + 'b'            # inside, no final newline
+    TEXTS['end-' + _n] = 'a' + _s                 # at the very end
+    TEXTS['mid-' + _n] = 'p 1' + _s + 'p 2\n'     # inside a \n-terminated text
+    TEXTS['only-' + _n] = _s                      # thorough
+    TEXTS['dbl-' + _n] = 'a' + _s + _s + 'b\n'    # thorough
+    TEXTS['start-' + _n] = _s + 'a\n'             # thorough
+for (_n1, _s1), (_n2, _s2) in itertools.product(SEPARATORS, repeat=2):
+    if _n1 != _n2:
+        TEXTS['two-%s-%s' % (_n1, _n2)] = 'a' + _s1 + 'b' + _s2   # thorough
+
+# quick = the full content alphabet of the statement: empty, no final
+# newline, every line-boundary class inside and at the end, unicode, astral,
+# NUL, blank lines, whitespace, mixed endings, 200 lines
+TEXT_QUICK = (['empty', 'a', 'a-nl', 'uni', 'nofinal', 'l200', 'blank2',
+               'spaces', 'mixed', 'astral', 'nul', 'crlf-end'] +
+              ['%s-%s' % (w, n) for n, _ in SEPARATORS
+               for w in ('in', 'end', 'mid')])
+TEXT_THOROUGH = (TEXT_QUICK +
+                 ['%s-%s' % (w, n) for n, _ in SEPARATORS
+                  for w in ('only', 'dbl', 'start')] +
+                 sorted(k for k in TEXTS if k.startswith('two-')))
+
+
+def text_feature(t):
+    """Root-cause class of a text content (for violation signatures)."""
+    if any(c in t for c in SPLITLINES_ONLY):
+        return 'splitlines-only-separator'
+    if '\r\n' in t:
+        return 'crlf'
+    if '\r' in t:
+        return 'cr'
+    if '\x00' in t:
+        return 'nul'
+    if any(ord(c) > 0xffff for c in t):
+        return 'astral'
+    if any(ord(c) > 0x7f for c in t):
+        return 'non-ascii'
+    if t == '':
+        return 'empty'
+    if not t.endswith('\n'):
+        return 'no-final-newline'
+    if len(t) > 1000:
+        return 'long'
+    return 'plain'
+
 
 BYTES = {
     'A': b'\x00\xff',
@@ -81,9 +130,11 @@ BYTES = {
     'nl': b'\n',
     'utf8': 'é日本\n'.encode('utf-8'),
     'latin1': b'\xe9\n',
+    'seps': 'a\x0bb\x0cc\x1cd\x1de\x1ef\x85g\u2028h\u2029i\r\nj\rk'.encode('utf-8'),
 }
-BYTES_QUICK = ['empty', 'crlf', 'all256', 'nl']
-BYTES_THOROUGH = BYTES_QUICK + ['big', 'utf8', 'latin1']
+BYTES_QUICK = ['empty', 'crlf', 'all256', 'nl', 'big', 'utf8', 'latin1',
+               'seps']
+BYTES_THOROUGH = BYTES_QUICK
 
 FRAME_QUICK = ['int', 'float-nan', 'obj-none', 'bool', 'dt-ns', 'zero-rows',
                'two-col']
@@ -650,6 +701,8 @@ class Content(object):
         """Root-cause discriminator for 'regenerated reference fails': for
         frames the dtype changes of the parquet round trip (read back with
         pandas alone), otherwise the content id."""
+        if self.atype in ('string', 'file', 'files'):
+            return text_feature(TEXTS[self.ids[x]])
         if self.atype != 'frame':
             return self.ids[x]
         try:
@@ -998,7 +1051,7 @@ def content_ids(atype, tier):
         return TEXT_THOROUGH if tier == 'thorough' else TEXT_QUICK
     if atype == 'binary':
         return BYTES_THOROUGH if tier == 'thorough' else BYTES_QUICK
-    return FRAME_THOROUGH if tier == 'thorough' else FRAME_QUICK
+    return FRAME_THOROUGH          # every frame family in both tiers
 
 
 HIST_STARTS = [[], [['set', 'RT', None, True]], [['set', 'RT', 'table', True]],
@@ -1089,6 +1142,18 @@ class C10(Check):
                         yield {'mode': 'bfs', 'type': t, 'A': cid, 'B': 'Q',
                                'via': via, 'start': [], 'depth': 2,
                                'menu': 'content'}
+            if tier == 'thorough':
+                # the 16 classic contents again under every table operation
+                for t in TYPES:
+                    ids = content_ids(t, tier)
+                    if t in ('string', 'file', 'files'):
+                        ids = [c for c in TEXT_QUICK
+                               if not c.startswith(('end-', 'mid-'))]
+                    for cid in ids:
+                        for via in ('unittest', 'pytest'):
+                            yield {'mode': 'bfs', 'type': t, 'A': cid,
+                                   'B': 'Q', 'via': via, 'start': [],
+                                   'depth': 2, 'menu': 'content-full'}
             return
         if layer in ('hist2', 'hist3', 'hist4'):
             depth = int(layer[-1])
@@ -1193,10 +1258,21 @@ class C10(Check):
                     if (op[0] == 'set' and op[1] == 'RT' and
                         op[3] != 'default')
                     or op[0] == 'assert' or op in keep]
-        if case['menu'] == 'content':
+        if case['menu'] == 'content-full':
             # depth 2: [make a kind regenerate] [assert] - every table op and
             # the A-assertions; the follow-up clause runs inside step()
             menu = [op for op in menu if op[0] != 'assert' or op[2] == 'A']
+        if case['menu'] == 'content':
+            # the same with one table operation per route and per selection
+            # (all kinds / one kind), so that the whole content alphabet fits
+            # the quick tier: every kind is regenerated with this content
+            # through every route, then re-checked in normal mode
+            keep = [['set', 'RT', None, True], ['set', 'Sub', 'table', True],
+                    ['set', 'RT', 'graph', True], ['argv', ['-W']], ['argv', ['-w', 'graph']],
+                    ['pytest', True, None, False],
+                    ['pytest', False, ['table'], False]]
+            menu = [op for op in menu
+                    if op in keep or (op[0] == 'assert' and op[2] == 'A')]
         ex.bfs([list(o) for o in case['start']], menu, case['depth'])
         tags = R.outcomes
         R.nontrivial = any(k.startswith('regen:') for k in tags) and \
